@@ -226,6 +226,11 @@ macro_rules! forms {
             ("LOG2_10", D::LOG2_10(), F::LOG2_10()),
             ("zero", D::zero(), 0.0),
             ("one", D::one(), 1.0),
+            // the in-place forms (provided methods of num-traits unless a type overrides them) on a
+            // value whose parts are all present and non-zero
+            ("set_zero", { let mut r = mk(&asv[0]); Zero::set_zero(&mut r); r }, 0.0),
+            ("set_one", { let mut r = mk(&asv[0]); One::set_one(&mut r); r }, 1.0),
+            ("set_zero (absent parts)", { let mut r = mk(asv.last().unwrap()); Zero::set_zero(&mut r); r }, 0.0),
             ("from_i8", D::from_i8(-3).unwrap(), -3.0),
             ("from_i16", D::from_i16(-300).unwrap(), -300.0),
             ("from_i32", D::from_i32(-70000).unwrap(), -70000.0),
@@ -317,7 +322,7 @@ fn main() {
         mode: cli.mode,
         seed: cli.seed,
         start,
-        rule: "for every concrete type (scalar types over both widths, static and dynamic vector types incl. length 0, nested types): the 16 owned/borrowed forms of + - * /, 2 of neg, 4 dual and 8 scalar compound/plain operators, Inv, Sum/Product over owned and borrowed iterators of length 0..3, default mul_add, From<F>, the 14 FromPrimitive constructors, Zero, One, 19 FloatConst constants - each against the canonical form `&a op &b` with scalars lifted by from, on dyadic operands x every presence pattern x 4 real parts (one of them exactly 0). Non-trivial = a form applied to operands with non-zero parts.".into(),
+        rule: "for every concrete type (scalar types over both widths, static and dynamic vector types incl. length 0, nested types): the 16 owned/borrowed forms of + - * /, 2 of neg, 4 dual and 8 scalar compound/plain operators, Inv, Sum/Product over owned and borrowed iterators of length 0..3, default mul_add, From<F>, the 14 FromPrimitive constructors, Zero, One (also set_zero / set_one), 19 FloatConst constants - each against the canonical form `&a op &b` with scalars lifted by from, on dyadic operands x every presence pattern x 4 real parts (one of them exactly 0). Non-trivial = a form applied to operands with non-zero parts.".into(),
         assumptions: vec!["additive, forwarding and multiplicative-scalar forms: numerically equal in every part; scalar division and inv vs 1/a: within 16 u".into()],
         extra: json!({}),
         exhaustive: true,
